@@ -60,6 +60,30 @@ def run(ctx):
             res.site(key, True, {"side": label, "field": fld, "verdict": "ok" if ok else "VIOLATION"})
             if not ok:
                 res.find(key, mt.loc(), "CalibrationIdentifier::matches never reads the %s's `%s`: calibrations differing only in it match the same gates" % (label, fld), "`DEFCAL DAGGER X 0` matching a plain `X 0` (or the analogous case for %s)" % fld)
+    # R1b the whole-signature components are compared exactly: name and modifiers by (in)equality of the two fields
+    #     themselves (a modifier list is an ordered sequence: DAGGER CONTROLLED differs from CONTROLLED DAGGER), the
+    #     parameter and qubit counts by (in)equality of the two lengths
+    from qv.engine import fn_expr_operand as _op
+    cmp_found = {}
+    for sb in range(len(mt.blocks)):
+        tt = mt.blocks[sb]["t"]
+        if tt["k"] != "switch":
+            continue
+        e = _op(mt, tt["d"])
+        if e[0] == "call" and e[1] and e[1].rsplit("::", 1)[-1] in ("ne", "eq") and len(e[2]) == 2:
+            a_, b_ = e[2]
+            if a_[0] == "field" and b_[0] == "field" and a_[2] == b_[2] and {a_[1][0], b_[1][0]} == {"param"} and a_[1][1] != b_[1][1]:
+                cmp_found[a_[2]] = "=="
+        if e[0] == "bin" and e[1] in ("Ne", "Eq"):
+            a_, b_ = e[2], e[3]
+            if all(x[0] == "call" and x[1].endswith("::len") and x[2] and x[2][0][0] == "field" for x in (a_, b_)) and a_[2][0][2] == b_[2][0][2] and a_[2][0][1] != b_[2][0][1]:
+                cmp_found[a_[2][0][2] + ".len"] = "=="
+    for comp in ("name", "modifiers", "parameters.len", "qubits.len"):
+        key = "K8|matches-exact|%s" % comp
+        ok = cmp_found.get(comp) == "=="
+        res.site(key, True, {"component": comp, "comparison": cmp_found.get(comp), "verdict": "ok" if ok else "VIOLATION"})
+        if not ok:
+            res.find(key, mt.loc(), "CalibrationIdentifier::matches does not compare `%s` of the calibration and of the gate for plain equality" % comp, "`DAGGER CONTROLLED X 1 0` matches `DEFCAL CONTROLLED DAGGER X 1 0`")
     # R2 table from syntax
     sf = syn.fn_for(mt)
     tab = None
@@ -202,6 +226,9 @@ def run(ctx):
     res.site(key, True, dict(detail, verdict="ok" if ok else "VIOLATION"))
     if not ok:
         res.find(key, gmm.loc(), "get_match_for_measurement no longer implements (reverse definition order; same name; same target presence; exact fixed-qubit match preferred over a variable one): %s" % {k_: v for k_, v in detail.items() if not v}, "`DEFCAL MEASURE q addr: A` and `DEFCAL MEASURE 0 addr: B`: `MEASURE 0 ro` must use B; with two variable ones the later wins")
+    # in-place replacement of a redefined calibration (shared with C08)
+    from qv.props.c08 import in_place_replace_rule
+    in_place_replace_rule(db, res)
     res.explanation = "Field coverage of the matcher (MIR reads of both operands), first-match evaluation of the per-qubit table from the source arms against the documented table, and the tie / order / preference structure of both lookup functions."
     res.assumptions = ["iter_calibrations / iter_measure_calibrations iterate in definition order (C08)"]
     return res
